@@ -137,9 +137,18 @@ def returned(fn: FuncInfo, prog=None) -> list[str]:
     from .model import body_walk
     fl = flow_of(fn, prog)
     out = []
+    def alternatives(e: ast.AST):
+        # a result chosen by a conditional (also one produced by merging early returns) is each of its alternatives
+        if isinstance(e, ast.IfExp):
+            yield from alternatives(e.body)
+            yield from alternatives(e.orelse)
+        else:
+            yield e
+
     for s in body_walk(fn.node):
         if isinstance(s, ast.Return) and s.value is not None:
-            out.append(strip_ordinals(canon(fl.expand(s.value, fl.cfg.node_for(s)))))
+            for alt in alternatives(fl.expand(s.value, fl.cfg.node_for(s))):
+                out.append(strip_ordinals(canon(alt)))
     return out
 
 
